@@ -13,6 +13,9 @@ mod px;
 mod typed;
 
 use explore::*;
+
+#[global_allocator]
+static GLOBAL: guard::Efence = guard::Efence;
 use serde_json::{json, Value};
 use std::collections::{BTreeMap, BTreeSet};
 use std::time::Instant;
@@ -264,7 +267,18 @@ fn confirm(prop: &Prop, total: &mut Report) {
     for v in total.viols.iter_mut() {
         let Some(sp) = prop.spaces.iter().find(|s| s.name == v.space) else { continue };
         if v.sig.contains("|crash|") {
-            // cannot re-run in-process; describe the case only if the space offers a sample
+            // cannot re-run in-process: ask the case function to describe the case only
+            let mut ctx = Ctx::new(&sp.name);
+            ctx.idx = v.idx;
+            ctx.want_sample = true;
+            ctx.describe_only = true;
+            let _ = guarded(|| (sp.f)(v.idx, &mut ctx));
+            if let Some(o) = v.detail.as_object_mut() {
+                o.entry("profile").or_insert(json!(profile_name()));
+                if let Some(s) = ctx.samples.first() {
+                    o.insert("case".into(), s.clone());
+                }
+            }
             continue;
         }
         let mut ctx = Ctx::new(&sp.name);
@@ -468,14 +482,24 @@ fn do_replay(prop: &Prop, path: &str) -> i32 {
         eprintln!("MACHINERY-ERROR no space {} in {} (was the file recorded with the other tier?)", space, prop.id);
         return 2;
     };
+    println!("replay {} space={} index={} profile={}", prop.id, space, idx, profile_name());
+    {
+        // describe first (the case itself may crash the process)
+        let mut dctx = Ctx::new(&sp.name);
+        dctx.idx = idx;
+        dctx.want_sample = true;
+        dctx.describe_only = true;
+        let _ = guarded(|| (sp.f)(idx, &mut dctx));
+        for s in &dctx.samples {
+            println!("case: {}", s);
+        }
+        use std::io::Write;
+        std::io::stdout().flush().ok();
+    }
     let mut ctx = Ctx::new(&sp.name);
     ctx.idx = idx;
     ctx.want_sample = true;
     let r = guarded(|| (sp.f)(idx, &mut ctx));
-    println!("replay {} space={} index={} profile={}", prop.id, space, idx, profile_name());
-    for s in &ctx.samples {
-        println!("case: {}", s);
-    }
     if let Err((loc, msg)) = r {
         println!("PANIC at {}: {}", loc, msg);
         println!("VIOLATION property={} replay={}", prop.id, path);
